@@ -499,4 +499,6 @@ func c17(p *model.Prog, r *report.Result) {
 	c17r10(p, r)
 	w5PullName(p, r, "C17.R11")
 	w7LastHasOutTs(p, r, "C17.R12")
+	w8KickDisablesApiPull(p, r, "C17.R13")
+	w8StartPullDefaults(p, r, "C17.R14")
 }
